@@ -4,6 +4,7 @@ from collections import Counter
 
 import numpy as np
 
+from ..gen import shot_histories as H
 from ..gen import shots as G
 from ..ref import stats as R
 
@@ -16,7 +17,18 @@ RULE = (
     "supports / constants inside sums / single term / constants only / nested / disjoint / full width / random; "
     "coefficients +-1, integers, dyadics, floats 1e-6..1e6, zeros), Bessel on and off; histograms with 0-8 "
     "outcomes; direct calls of the frequency / parity helpers with tuple, list, set, frozenset and range qubit "
-    "collections. A case is non-trivial when the shots contain >=2 distinct outcomes and (operator classes) the "
+    "collections; histories on 1-4 measurement objects of one width (<= 40 shots each, built from a list, from a "
+    "list shared with another object, from counts, empty + add_counts, with numpy integers): a query (counts / "
+    "distribution / expectation values with one of 2-3 operators of equal length that share supports or "
+    "coefficients / parity tallies / frequencies), then 1-4 rounds of a change (other shots of the SAME number - new "
+    "list, slice assignment, single items, through the list given to the constructor, emptied and refilled by "
+    "add_counts; other number - new list, add_counts, +=, extend, append, del; lists swapped between objects; "
+    "reordering; the caller modifying a returned histogram / result arrays / a counts argument after the call; "
+    "copy, deepcopy, a second object on the same list) followed by queries on the same and on the other objects; "
+    "repeated calls of the frequency / parity helpers whose arguments keep identity, key set, total, shape or "
+    "length while their content changes (in place or as new objects). A case is non-trivial when (history classes) "
+    "some object is queried, changed and queried again / two consecutive helper calls differ in content with a "
+    "marked qubit or >= 2 terms, (other classes) the shots contain >=2 distinct outcomes and (operator classes) the "
     "operator has >=2 terms of which at least one is not constant, or (helper classes) at least one qubit is marked; "
     "distinct = distinct canonical case strings"
 )
@@ -27,6 +39,10 @@ ASSUMPTIONS = [
     "single-shot divergence is documented) - values and correlations of the single-shot Bessel call are still judged",
     "coefficients are real (int / float, occasionally a complex with zero imaginary part), finite, 0 or 1e-6..1e6 in magnitude",
     "from_counts / add_counts are judged as multisets of shots (the property does not fix an order)",
+    "histories: every query is judged against the shots the object holds at the moment of the call (its public "
+    "`bitstrings` list, read by the monitor after the call); nothing is demanded about whether two objects built "
+    "from one list, or a copy and its original, share later changes - each is judged against its own current list; "
+    "objects left without shots are only asked for their counts",
 ]
 DECIDING = [
     "M.get_expectation_values", "M.get_counts", "M.from_counts", "M.add_counts", "M.get_distribution",
@@ -41,7 +57,7 @@ _LIB = {}
 
 
 def classes(tier):
-    return ["expect", "expect_boundary", "counts", "freq", "parity", "parities"]
+    return ["expect", "expect_boundary", "counts", "freq", "parity", "parities", "history", "helper_history"]
 
 
 # ----------------------------------------------------------------------------- domain helpers
@@ -551,6 +567,257 @@ def _marked(rng, width, allow_dup=False):
     return range(a, b)
 
 
+# ----------------------------------------------------------------------------- histories
+def _build_operator_from(terms, route_seed):
+    import random
+
+    return build_operator(random.Random(route_seed), terms)
+
+
+def _run_history(ctx, plan):
+    """Executes a plan of rv.gen.shot_histories.rand_history.  The monitors judge every
+    library call against the shots the object holds at that moment; the driver only
+    drives (and checks that the counts sum to the current number of shots)."""
+    import copy
+    import random
+
+    from orquestra.quantum.measurements import Measurements, get_parities_from_measurements
+    from orquestra.quantum.measurements.measurements import get_expectation_value_from_frequencies
+
+    mon = ctx.mon
+    width = plan["width"]
+    objs, sources, last_arg = [], [], []
+    for o in plan["objects"]:
+        init, shots = o["init"], o["shots"]
+        src = arg = None
+        if init == "shared" and objs and sources[0] is not None:
+            src = sources[0]
+            m = Measurements(src)
+        elif init == "from_counts":
+            arg = G.counts_of(shots)
+            m = Measurements.from_counts(arg)
+        elif init == "default_add":
+            arg = G.counts_of(shots)
+            m = Measurements()
+            m.add_counts(arg)
+        elif init == "np":
+            src = [tuple(np.int64(b) for b in s) for s in shots]
+            m = Measurements(src)
+        else:
+            src = list(shots)
+            m = Measurements(src)
+        objs.append(m)
+        sources.append(src)
+        last_arg.append(arg)
+    ops = [_build_operator_from(t, 1000 + i) for i, t in enumerate(plan["ops"])]
+    last_res = {}
+    seen = {}  # object index -> (number of shots, multiset) at its previous query
+
+    def assign_items(lst, items):
+        if not lst:
+            return
+        for frac, shot in items:
+            lst[int(frac * len(lst)) % len(lst)] = shot
+
+    for st in plan["steps"]:
+        kind, j = st[0], st[1]
+        if j >= len(objs):
+            continue
+        m = objs[j]
+        # ---- queries
+        if kind in ("counts", "dist", "expect", "parities", "freq"):
+            now = (len(m.bitstrings), _multiset(m.bitstrings))
+            if j in seen and seen[j][1] != now[1]:
+                mon.note("history: query after a change that kept the number of shots" if seen[j][0] == now[0]
+                         else "history: query after a change of the number of shots")
+            elif j in seen:
+                mon.note("history: query on unchanged shots")
+            seen[j] = now
+            if not m.bitstrings:
+                kind = "counts"
+            if kind == "counts":
+                c = m.get_counts()
+                n = len(m.bitstrings)
+                ctx.check("counts-sum", sum(c.values()) == n, lambda: f"history: {n} shots, counts {c!r}")
+                last_res[j] = c
+            elif kind == "dist":
+                last_res[j] = m.get_distribution()
+            elif kind == "expect":
+                _k, _j, k, bessel, fresh = st
+                op = _build_operator_from(plan["ops"][k], 2000 + k) if fresh else ops[k]
+                last_res[j] = m.get_expectation_values(op, bessel)
+                del op
+            elif kind == "parities":
+                get_parities_from_measurements(m.bitstrings, ops[st[2]])
+            else:
+                c = m.get_counts()
+                last_res[j] = c
+                get_expectation_value_from_frequencies(st[2], c)
+            continue
+        # ---- changes
+        mon.note(f"history-change:{kind}")
+        n = len(m.bitstrings)
+        if kind in ("replace_same", "slice_same", "clear_add"):
+            (pool, weights), sub = st[2], st[3]
+            new = random.Random(sub).choices(pool, weights=weights, k=max(n, 1))
+            if kind == "replace_same":
+                m.bitstrings = new
+            elif kind == "slice_same":
+                m.bitstrings[:] = new
+            else:
+                if st[4] == "assign":
+                    m.bitstrings = []
+                else:
+                    m.bitstrings.clear()
+                arg = G.counts_of(new)
+                m.add_counts(arg)
+                last_arg[j] = arg
+        elif kind == "items":
+            assign_items(m.bitstrings, st[2])
+        elif kind == "source":
+            assign_items(sources[j] if sources[j] is not None else m.bitstrings, st[2])
+        elif kind == "replace_new":
+            m.bitstrings = list(st[2])
+        elif kind == "add_counts":
+            arg = dict(st[2])
+            m.add_counts(arg)
+            last_arg[j] = arg
+        elif kind == "extend":
+            if st[3] == "iadd":
+                m.bitstrings += list(st[2])
+            elif st[3] == "extend":
+                m.bitstrings.extend(st[2])
+            else:
+                m.bitstrings.append(st[2][0])
+        elif kind == "pop":
+            k = min(st[2], n - 1)
+            if k > 0:
+                del m.bitstrings[-k:]
+        elif kind == "swap":
+            if st[2] < len(objs):
+                other = objs[st[2]]
+                m.bitstrings, other.bitstrings = other.bitstrings, m.bitstrings
+        elif kind == "shuffle":
+            random.Random(st[2]).shuffle(m.bitstrings)
+        elif kind == "result":
+            r = last_res.get(j)
+            if isinstance(r, dict):
+                for key in list(r):
+                    r[key] += 3
+                r["1" * width] = 99
+                r.pop(next(iter(r)))
+            elif r is not None and hasattr(r, "distribution_dict"):
+                try:
+                    r.distribution_dict.clear()
+                except Exception:
+                    pass
+            elif r is not None:
+                for arr in [r.values] + list(r.correlations or []) + list(r.estimator_covariances or []):
+                    try:
+                        arr[...] = 7
+                    except Exception:
+                        pass
+        elif kind == "arg":
+            a = last_arg[j]
+            if a is not None:
+                for key in list(a):
+                    a[key] += 2
+                a["0" * width] = 50
+        elif kind == "copy":
+            if len(objs) < H.MAX_OBJECTS:
+                how = st[2]
+                src = arg = None
+                if how == "copy":
+                    new_m = copy.copy(m)
+                elif how == "deepcopy":
+                    new_m = copy.deepcopy(m)
+                elif how == "alias_ctor":
+                    src = m.bitstrings
+                    new_m = Measurements(src)
+                elif how == "list_ctor":
+                    src = list(m.bitstrings)
+                    new_m = Measurements(src)
+                else:
+                    arg = m.get_counts()
+                    new_m = Measurements.from_counts(arg)
+                objs.append(new_m)
+                sources.append(src)
+                last_arg.append(arg)
+        else:
+            raise ValueError(kind)
+
+
+def _container(kind, qs):
+    return {"list": list, "set": set, "tuple": tuple, "frozenset": frozenset}[kind](qs)
+
+
+def _update_marked(live, kind, qs):
+    """the same list / set object with the new content when it can be modified"""
+    if kind == "list":
+        live[:] = qs
+        return live
+    if kind == "set":
+        live.clear()
+        live.update(qs)
+        return live
+    return _container(kind, qs)
+
+
+def _run_helper_history(ctx, plan):
+    from orquestra.quantum.measurements import check_parity, check_parity_of_vector, get_parities_from_measurements
+    from orquestra.quantum.measurements.measurements import get_expectation_value_from_frequencies
+
+    kind = plan["kind"]
+    calls = plan["calls"]
+    mon = ctx.mon
+    if kind == "parities":
+        ops = [_build_operator_from(t, 3000 + i) for i, t in enumerate(plan["ops"])]
+        live = None
+        for how, k, shots in calls:
+            if how == "inplace" and live is not None and len(live) == len(shots):
+                for i, s in enumerate(shots):
+                    if live[i] != s:
+                        live[i] = s
+            else:
+                live = list(shots)
+            mon.note(f"helper-history:{kind}:{how}")
+            get_parities_from_measurements(live, ops[k])
+        return
+    ckind = plan["container"]
+    live = live_marked = None
+    for how, marked, value in calls:
+        mon.note(f"helper-history:{kind}:{how}")
+        inplace = how == "inplace" and live is not None
+        live_marked = _update_marked(live_marked, ckind, marked) if inplace else _container(ckind, marked)
+        if kind == "freq":
+            if inplace:
+                for key in [key for key in live if key not in value]:
+                    del live[key]
+                for key, v in value.items():
+                    live[key] = v
+            else:
+                live = dict(value)
+            get_expectation_value_from_frequencies(live_marked, live)
+        elif kind == "vector":
+            if inplace:
+                live[...] = np.array(value, dtype=live.dtype)
+            else:
+                live = np.array(value, dtype={"int": int, "int8": np.int8, "uint8": np.uint8, "int64": np.int64}[plan["dtype"]])
+            check_parity_of_vector(live, live_marked)
+        else:
+            form = plan["form"]
+            if form == "list":
+                if inplace:
+                    live[:] = value
+                else:
+                    live = list(value)
+            elif form == "str":
+                live = "".join(map(str, value))
+            else:
+                live = tuple(value)
+            check_parity(live, live_marked)
+
+
 # ----------------------------------------------------------------------------- cases
 def run_case(ctx):
     from orquestra.quantum.measurements import Measurements, check_parity, check_parity_of_vector, \
@@ -693,6 +960,18 @@ def run_case(ctx):
             ctx.describe(f"parity vector {dt.__name__} rows={shots!r} marked={marked!r}",
                          len(list(marked)) >= 1 and len(set(shots)) >= 2)
             check_parity_of_vector(np.array(shots, dtype=dt), marked)
+        return
+
+    if cls == "history":
+        plan = H.rand_history(rng)
+        ctx.describe(f"history {H.describe_history(plan)}", H.history_is_nontrivial(plan))
+        _run_history(ctx, plan)
+        return
+
+    if cls == "helper_history":
+        plan = H.rand_helper_history(rng)
+        ctx.describe(f"helper_history {plan!r}", H.helper_history_is_nontrivial(plan))
+        _run_helper_history(ctx, plan)
         return
 
     raise ValueError(cls)
